@@ -224,8 +224,8 @@ Example C11_ex_primary_builder :
   /\ primary_builder_build (mkpb (Some 4) None None (Some (Ipn 2 1 1)) None None None None None) = None.
 Proof. vm_compute. split; reflexivity. Qed.
 
-(* the exhaustive tie for set_crc: for EVERY u8 type code the library's set_crc_type, read back through crc_type / has_crc /
-   bytes (table written from the compiled crate on every run), is the model's crc_of_type *)
+(* the exhaustive tie for set_crc: for EVERY u8 type code k the library's Bundle::set_crc(k) followed by Bundle::to_cbor (table written
+   from the compiled crate on every run) emits the bytes the model emits (crc_bundle / crc_answer: Proofs/TieCrcCode.v) *)
 Theorem C11_tie_crc_code : forall k, k < 256 -> code_crc k = crc_answer k.
 Proof. exact tie_crc_code. Qed.
 
